@@ -97,6 +97,19 @@ fn main() {
                 std::process::exit(0);
             }
         }
+        Some("exec-case") => {
+            // child mode: one case on stdin, its result as one "RESULT <json>" line on stdout
+            let mut input = String::new();
+            use std::io::Read;
+            std::io::stdin().read_to_string(&mut input).expect("stdin");
+            let case: exec::Case = serde_json::from_str(&input).unwrap_or_else(|e| {
+                eprintln!("HARNESS ERROR: bad case on stdin: {}", e);
+                std::process::exit(2);
+            });
+            let res = checks::exec_case(&case);
+            println!("RESULT {}", serde_json::to_string(&res).unwrap());
+            std::process::exit(0);
+        }
         Some("selftest") => {
             // rainsim selftest determinism [n] : execute the first n cases of every claimed check
             // twice in this process (on whichever worker thread picks them up) and print one digest
